@@ -48,6 +48,10 @@ CLAIMED = {
             "Exploration with an exhaustive calendar grid (8 years x every month boundary x 2 times x 8+ offsets x 13 fraction shapes x 5 precisions, ~50 000 cases) plus random timestamps, an enumerated list of impossible literals/binary tuples, and 10-30 digit fractions in both formats.",
             "Local year 1..9999. Ties within 0.001 ns of .5 are accepted either way in the sub-nanosecond check (the text path rounds through float64).",
             "DESIGN.md section 5, C15"),
+    "C05": (PBT + " over generated stream histories and documents; round-trip oracle through the documented copy loop judged by the independent reference decoders (the copy must be self-contained and denote the same values, symbols by text)",
+            "Exploration: 60 000 (source, catalog, destination mode) cases per quick run: 65% stream histories (version markers, replacing / appending tables, catalog imports, symbols by any ID carrying the text, $n in text), 35% plain documents of all types (reference printer / encoder spellings, ion-go writer output with shared tables) copied with the README loop into a text, pretty or binary writer; the reference decoder must accept the copy without any catalog and recover the values the source denotes.",
+            "Symbols with unknown text are generated only as $0. Sources are accepted documents (the reference decoder's verdict, cross-checked by the generator). Trusts the reference decoders.",
+            "DESIGN.md section 5, C05"),
     "C06": ("fuzzing / property-based testing with pgregory.net/rapid over grammar-aware hostile inputs + exhaustive enumeration of all inputs of length <= 2; validity oracle observed from outside an isolated worker process (recovered panics, process death, allocation and progress counters, wall-clock with solo re-run)",
             "Exploration with an exhaustive sub-grid: every byte string of length <= 2, bare and behind a version marker, under full traversal and Decoder.Decode (263 000 runs); every extreme-field token (lengths / IDs / exponents / years / offsets from 2^20 to 2^64-1) x 9 container wrappers x 5 programs; plus 24 000 generated (program, input) pairs per quick run: hostile symbol-table structs (typed nulls, huge / negative ints, wrong types in every slot), extreme text, the C07 edit catalogue, splices, random bytes; programs = full traversal, random navigation issued regardless of state, Decoder.Decode, Unmarshal into 32 target types, Decoder.DecodeTo.",
             "Inputs <= 64 KiB (nesting depth bounded by that). The allocation bound (1 MiB + 64 x len) is calibrated on valid documents, whose maximum is reported in evidence. A hang or death must reproduce on a solo re-run in a fresh process to count. Trusts the worker protocol, rapid, Go's runtime/metrics.",
